@@ -25,6 +25,9 @@ type reprCase struct {
 	// Lit, if set, is a string literal source whose decoding is also checked.
 	Lit       string `json:"lit,omitempty"`
 	LitExpect string `json:"lit_expect,omitempty"`
+	// Src, if set, is a program that computes the value (instead of the
+	// constructors), so that it arrives in a computed representation.
+	Src string `json:"src,omitempty"`
 }
 
 var wideRunes = []rune{'a', 'b', '1', ' ', '\'', '"', '\\', '`', '‵', '\n', '\t', '\r', 0, 1, 7, 0x1b, 0x1f, 0x7f, 0x80, 0xe9, 0x20ac, 0x1f600, 0xfffd, 0xd7ff, 0xe000, '$', '{', '}', ':', 'x', 'u', '0'}
@@ -192,6 +195,23 @@ func genC12(t *rapid.T) (reprCase, bool, []string) {
 	v := genWideVal(t, depth)
 	c := reprCase{Value: v.Key(), Tags: tagsOf(v)}
 	classes := []string{"kind:" + reprKind(v)}
+	if chance(t, "computed", 20) {
+		// a value computed by operators: relations built by joins have a
+		// column layout of their own
+		g := gcfg{oddSugar: true, superimposed: false, quotedNames: true}
+		if chance(t, "relation", 60) {
+			h := []string{"a", "b", "c", "d"}[:rapid.IntRange(2, 4).Draw(t, "hn")]
+			v = genRows(t, h, rapid.IntRange(1, 3).Draw(t, "nrows"), 0, 2)
+		} else {
+			v, _ = g.genSet(t, 2)
+		}
+		r := newRenderer(t)
+		r.prefer = "join-split"
+		c.Src = r.deep(g, v, 80)
+		c.Value = v.Key()
+		c.Tags = tagsOf(append(r.vals, v)...)
+		classes = append([]string{"kind:" + reprKind(v), "built:computed"}, r.formList()...)
+	}
 	nt := v.Depth() >= 2
 	v.Walk(func(x *model.V) {
 		if x.K == model.KTup {
@@ -281,6 +301,9 @@ func checkReprCase1(c reprCase, fail func(sig, format string, args ...interface{
 		return &Failure{Property: "C12", Check: "C12/repr", Detail: "bad case: " + err.Error()}
 	}
 	built := obs.Guard(func() (rel.Value, error) { return obs.ToRel(m), nil })
+	if c.Src != "" {
+		built = obs.Eval(c.Src)
+	}
 	if built.Kind != "value" {
 		return fail(sig, "value %s could not be built: %s", m.Key(), built)
 	}
